@@ -13,6 +13,7 @@ import (
 	"path"
 	"strings"
 	"sync"
+	"sync/atomic"
 	"time"
 
 	"github.com/pingcap/kvproto/pkg/pdpb"
@@ -411,6 +412,12 @@ func (w *world) exec1(o *op) string {
 		}
 		return errObs(err)
 	case "Set":
+		if o.TS == 0 && strings.HasPrefix(o.Rel, "same-ms-logical:") {
+			// a target in the very millisecond the memory stands at, with the given logical part (fixed scenarios)
+			var l int64
+			fmt.Sscanf(o.Rel, "same-ms-logical:%d", &l)
+			o.TS = compose(x.state().phys/1e6, l)
+		}
 		w.setMode(x, o.Out)
 		err := x.alloc.SetTSO(o.TS)
 		x.ctl.SetNext(etcdx.Pass)
@@ -821,6 +828,10 @@ func scenarios() [][]op {
 		// ... and the same with the answer of the reset lost before etcd applied it (nothing to read back that differs)
 		{{K: "Elect", M: 0}, {K: "Sync", M: 0}, {K: "Gen", M: 0, Count: 1}, {K: "Set", M: 0, TS: far(), Rel: "one-hour-ahead", Out: 1}, {K: "State", M: 0}, {K: "Read"},
 			{K: "Sleep", Us: 6000}, {K: "UpdRdFail", M: 0}, {K: "State", M: 0}, {K: "Read"}, {K: "Sleep", Us: 6000}, {K: "Upd", M: 0}, {K: "State", M: 0}, {K: "Read"}},
+		// a request that cannot be granted leaves the raw logical counter beyond 18 bits; a reset into the same millisecond
+		// with a logical part below what was granted (but above the counter taken modulo 2^18) is still a reset backwards
+		{{K: "Elect", M: 0}, {K: "Sync", M: 0}, {K: "Gen", M: 0, Count: 200000}, {K: "Gen", M: 0, Count: 100000}, {K: "State", M: 0},
+			{K: "Set", M: 0, Rel: "same-ms-logical:150000"}, {K: "State", M: 0}, {K: "Gen", M: 0, Count: 10}, {K: "State", M: 0}, {K: "Read"}},
 		// a window save that takes longer than the save interval (slow but successful): the memory moves to the time the
 		// save was decided for, not to a later reading of the clock - what is granted next lies below the window written
 		{{K: "Elect", M: 0}, {K: "Sync", M: 0}, {K: "Gen", M: 0, Count: 1}, {K: "Sleep", Us: 6000}, {K: "UpdBegin", M: 0}, {K: "Sleep", Us: 16000},
@@ -1169,6 +1180,81 @@ func delayedWindowWriteProbe(e *etcdx.Etcd, admin *clientv3.Client, root string,
 		}
 		return
 	}
+}
+
+// tickRaceProbe: four callers ask one allocator for timestamps as fast as they can while the periodic update moves the physical
+// time on, millisecond after millisecond (each move restarts the logical part). Whatever the request path reads and whatever
+// it adds, it is one atomic step against those moves: no value is handed out twice and every caller's answers increase.
+func tickRaceProbe(e *etcdx.Etcd, admin *clientv3.Client, root string, R *res.Result, prop string) {
+	w := &world{e: e, admin: admin, root: root}
+	defer e.CloseFrom(e.Mark())
+	w.mems = append(w.mems, w.newMember(0))
+	a := w.mems[0]
+	if err := a.m.CampaignLeader(60); err != nil {
+		return
+	}
+	if err := a.alloc.Initialize(0); err != nil {
+		return
+	}
+	defer a.am.ResetAllocatorGroup(tso.GlobalDCLocation)
+	type ts struct{ p, l int64 }
+	var stopFlag int32
+	var wg sync.WaitGroup
+	per := make([][]ts, 4)
+	for g := 0; g < 4; g++ {
+		wg.Add(1)
+		go func(g int) {
+			defer wg.Done()
+			for atomic.LoadInt32(&stopFlag) == 0 {
+				cnt := uint32(1 + g)
+				t, err := a.alloc.GenerateTSO(cnt)
+				if err != nil {
+					continue
+				}
+				per[g] = append(per[g], ts{t.Physical, t.Logical})
+			}
+		}(g)
+	}
+	stop := time.Now().Add(200 * time.Millisecond)
+	ticks := 0
+	for time.Now().Before(stop) {
+		if err := w.safe("UpdateTSO", a.alloc.UpdateTSO); err != nil {
+			break
+		}
+		ticks++
+		time.Sleep(300 * time.Microsecond)
+	}
+	atomic.StoreInt32(&stopFlag, 1)
+	wg.Wait()
+	R.CountN("tick-race:ticks", ticks)
+	seen := map[ts]int{}
+	n := 0
+	for g := range per {
+		cnt := int64(1 + g)
+		for i, t := range per[g] {
+			n++
+			if i > 0 {
+				q := per[g][i-1]
+				if t.p < q.p || (t.p == q.p && t.l-cnt+1 <= q.l) {
+					R.Violate(prop+":timestamp-went-back:request-racing-with-the-update-tick",
+						fmt.Sprintf("one caller got (%d,%d) for %d timestamps after it had got (%d,%d), while the update moved the physical time on every millisecond", t.p, t.l, cnt, q.p, q.l),
+						map[string]interface{}{"earlier": []int64{q.p, q.l}, "later": []int64{t.p, t.l}, "count": cnt})
+					return
+				}
+			}
+			for v := t.l - cnt + 1; v <= t.l; v++ {
+				k := ts{t.p, v}
+				if o, dup := seen[k]; dup {
+					R.Violate(prop+":duplicate-timestamp:request-racing-with-the-update-tick",
+						fmt.Sprintf("the value (%d,%d) was handed to caller %d and to caller %d while the update moved the physical time on every millisecond", t.p, v, o, g),
+						map[string]interface{}{"physical": t.p, "logical": v})
+					return
+				}
+				seen[k] = g
+			}
+		}
+	}
+	R.CountN("tick-race:answers", n)
 }
 
 // reelectedDuringSaveProbe: the allocator is always taken from the manager the way the daemon and the request path do. The
@@ -1964,6 +2050,7 @@ func main() {
 				}
 				overflowRace(e, admin, "/c01/overflow", R, *prop)
 				delayedWindowWriteProbe(e, admin, "/c01/delayed/r", R, *prop)
+				tickRaceProbe(e, admin, "/c01/tickrace/r", R, *prop)
 				reelectedDuringSaveProbe(e, admin, "/c01/reelected/r", R, *prop)
 				readBackFaultProbe(e, admin, "/c01/readback/r", R, *prop)
 				if c, ok := updateReadRaceCase(e, admin, "/c01/updread/r"); ok {
